@@ -20,6 +20,10 @@ func init() { commands["C09"] = runC09 }
 type c09Case struct {
 	Shape  []int   `json:"shape"`  // statements per file
 	Faults [][]int `json:"faults"` // per attempt: failing op indices
+	// Ck: the first file carries the atlas:checkpoint directive. On a first run that is where the run
+	// starts anyway, so the same statements are due; a fault inside it makes the resumed run take the
+	// "partially applied checkpoint" path of Pending.
+	Ck bool `json:"first_file_is_checkpoint,omitempty"`
 }
 
 func (c *c09Case) dir() ([]dirFile, []string) {
@@ -27,6 +31,9 @@ func (c *c09Case) dir() ([]dirFile, []string) {
 	var flat []string
 	for i, n := range c.Shape {
 		var b strings.Builder
+		if c.Ck && i == 0 {
+			b.WriteString("-- atlas:checkpoint\n\n")
+		}
 		if n == 0 {
 			b.WriteString("-- empty\n")
 		}
@@ -243,8 +250,16 @@ func runC09(e *Env) error {
 				}
 			}
 		}
+		// the same schedules on directories whose first file is a checkpoint
+		nplain := len(cases)
+		for i := 0; i < nplain; i++ {
+			if c := cases[i]; len(c.Shape) >= 2 && c.Shape[0] > 0 && (e.Thorough() || len(c.Faults) <= 3) {
+				c.Ck = true
+				cases = append(cases, c)
+			}
+		}
 		e.Res.Exhaustive = true
-		e.Res.Rule = fmt.Sprintf("exhaustive: directory shapes of 1..%d files x %d..%d statements each x {no fault, every single failing operation (statement or revision write), statement+deferred-write double fault, every ordered pair of faults in two successive runs} followed by two clean runs; non-trivial = at least one fault fired; distinct by (shape, schedule)", mf, min, ms)
+		e.Res.Rule = fmt.Sprintf("exhaustive: directory shapes of 1..%d files x %d..%d statements each x {no fault, every single failing operation (statement or revision write), statement+deferred-write double fault, every ordered pair of faults in two successive runs} followed by two clean runs; the same on directories whose first file is a checkpoint; non-trivial = at least one fault fired; distinct by (shape, schedule)", mf, min, ms)
 	}
 	parallel(e.Workers, len(cases), func(i int) {
 		c := cases[i]
